@@ -24,7 +24,38 @@ func (e *Eng) actDeviceAuth() {
 	if len(scopes) > 0 {
 		form.Set("scope", strings.Join(scopes, " "))
 	}
+	e.w.ResetCalls()
+	e.w.Record = true
 	res := e.w.DeviceAuth(form, e.auth(client), h.Consent{})
+	e.w.Record = false
+	for _, c := range e.w.Calls {
+		if res.DeviceCode == "" {
+			break
+		}
+		for _, k := range []string{c.Key, c.Key2} {
+			if k != "" && (k == res.DeviceCode || k == res.UserCode || strings.Contains(k, res.UserCode) || strings.Contains(res.DeviceCode, k) && len(k) > 50) {
+				e.viol("C16/code-stored-in-cleartext", "%s was called with key %q for device code %q / user code %q", c.Method, k, res.DeviceCode, res.UserCode)
+			}
+		}
+	}
+	if res.UserCode != "" {
+		// defaults: 8 upper-case letters
+		wantLen, alphabet := e.w.Cfg.UserCodeLength, string(e.w.Cfg.UserCodeSymbols)
+		if wantLen == 0 {
+			wantLen = 8
+		}
+		if alphabet == "" {
+			alphabet = "ABCDEFGHIJKLMNOPQRSTUVWXYZ"
+		}
+		if len([]rune(res.UserCode)) != wantLen {
+			e.viol("C16/user-code-shape", "user code %q has %d symbols, configured length %d", res.UserCode, len([]rune(res.UserCode)), wantLen)
+		}
+		for _, r := range res.UserCode {
+			if !strings.ContainsRune(alphabet, r) {
+				e.viol("C16/user-code-shape", "user code %q contains %q which is not in the configured alphabet %q", res.UserCode, r, alphabet)
+			}
+		}
+	}
 	e.step("deviceAuth")
 	if !res.Err.OK() || res.DeviceCode == "" {
 		e.logf("deviceAuth client=%s -> %v (not asserted)", client, res.Err)
